@@ -1308,17 +1308,6 @@ func ruleInsertCapacity(c *Ctx, tx *PkgIndex, rule string) {
 	isM := func(e ast.Node) bool {
 		return e != nil && (mentions(e, dep) || (mentions(e, kset) && mentions(e, lset)))
 	}
-	hasJump := func(n ast.Node) bool {
-		j := false
-		inspectNoLit(n, func(m ast.Node) bool {
-			switch m.(type) {
-			case *ast.BranchStmt, *ast.ReturnStmt:
-				j = true
-			}
-			return !j
-		})
-		return j
-	}
 	type site struct {
 		cond  ast.Expr
 		under bool
@@ -1327,7 +1316,9 @@ func ruleInsertCapacity(c *Ctx, tx *PkgIndex, rule string) {
 	}
 	var sites []site
 	changed := true
-	var walk func(list []ast.Stmt, under bool, collect bool) bool
+	// walk returns what jumps the statements may take under a membership-dependent condition: 1 = break/continue (what follows
+	// inside the enclosing loop is then control-dependent), 2 = return or a labelled jump (everything that follows is)
+	var walk func(list []ast.Stmt, under bool, collect bool) int
 	mark := func(l ast.Expr, set map[types.Object]bool) {
 		for {
 			switch x := unparen(l).(type) {
@@ -1355,10 +1346,30 @@ func ruleInsertCapacity(c *Ctx, tx *PkgIndex, rule string) {
 			}
 		}
 	}
-	// walk returns whether the statements may jump under a key-dependent condition (what follows is then control-dependent)
-	walk = func(list []ast.Stmt, under bool, collect bool) bool {
+	walk = func(list []ast.Stmt, under bool, collect bool) int {
+		jumped := 0
+		note := func(j int) {
+			if j > jumped {
+				jumped = j
+			}
+			if j > 0 {
+				under = true
+			}
+		}
 		for _, st := range list {
 			switch s := st.(type) {
+			case *ast.BranchStmt:
+				if under {
+					if s.Label != nil || s.Tok == token.GOTO {
+						note(2)
+					} else {
+						note(1)
+					}
+				}
+			case *ast.ReturnStmt:
+				if under {
+					note(2)
+				}
 			case *ast.AssignStmt:
 				for i, l := range s.Lhs {
 					var r ast.Node
@@ -1409,7 +1420,7 @@ func ruleInsertCapacity(c *Ctx, tx *PkgIndex, rule string) {
 					return true
 				})
 			case *ast.ExprStmt:
-				// copy(dst, src) / a method called on a local under the key's control changes what dst holds
+				// copy(dst, src) under the key's control (or of key-dependent data) changes what dst holds
 				if call, ok := s.X.(*ast.CallExpr); ok && len(call.Args) > 0 && builtinName(info, call) == "copy" {
 					if under || isM(call) {
 						mark(call.Args[0], dep)
@@ -1419,9 +1430,7 @@ func ruleInsertCapacity(c *Ctx, tx *PkgIndex, rule string) {
 					}
 				}
 			case *ast.BlockStmt:
-				if walk(s.List, under, collect) {
-					under = true
-				}
+				note(walk(s.List, under, collect))
 			case *ast.IfStmt:
 				if s.Init != nil {
 					walk([]ast.Stmt{s.Init}, under, collect)
@@ -1432,11 +1441,11 @@ func ruleInsertCapacity(c *Ctx, tx *PkgIndex, rule string) {
 				}
 				j := walk(s.Body.List, u, collect)
 				if s.Else != nil {
-					j = walk([]ast.Stmt{s.Else}, u, collect) || j
+					if j2 := walk([]ast.Stmt{s.Else}, u, collect); j2 > j {
+						j = j2
+					}
 				}
-				if j || (u && !under && (hasJump(s.Body) || (s.Else != nil && hasJump(s.Else)))) {
-					under = true
-				}
+				note(j)
 			case *ast.ForStmt:
 				if s.Init != nil {
 					walk([]ast.Stmt{s.Init}, under, collect)
@@ -1445,15 +1454,16 @@ func ruleInsertCapacity(c *Ctx, tx *PkgIndex, rule string) {
 				if collect && s.Cond != nil {
 					sites = append(sites, site{s.Cond, under, s.Body, s.Pos()})
 				}
-				// a jump under the key's control inside the body makes the whole body (next iterations) and what follows dependent
-				if walk(s.Body.List, u, false) {
+				// a jump under the key's control inside the body makes the whole body (its next iterations) dependent
+				if walk(s.Body.List, u, false) > 0 {
 					u = true
 				}
-				if walk(s.Body.List, u, collect) {
-					under = true
-				}
+				j := walk(s.Body.List, u, collect)
 				if s.Post != nil {
 					walk([]ast.Stmt{s.Post}, u, collect)
+				}
+				if j == 2 {
+					note(2)
 				}
 			case *ast.RangeStmt:
 				u := under || isM(s.X)
@@ -1471,11 +1481,17 @@ func ruleInsertCapacity(c *Ctx, tx *PkgIndex, rule string) {
 						mark(kv, kset)
 					}
 				}
-				if walk(s.Body.List, u, false) {
+				if walk(s.Body.List, u, false) > 0 {
 					u = true
+					// the loop variables stop where the key was met
+					for _, kv := range []ast.Expr{s.Key, s.Value} {
+						if kv != nil && s.Tok == token.ASSIGN {
+							mark(kv, dep)
+						}
+					}
 				}
-				if walk(s.Body.List, u, collect) {
-					under = true
+				if walk(s.Body.List, u, collect) == 2 {
+					note(2)
 				}
 			case *ast.SwitchStmt:
 				if s.Init != nil {
@@ -1490,17 +1506,16 @@ func ruleInsertCapacity(c *Ctx, tx *PkgIndex, rule string) {
 							sites = append(sites, site{e, under || isM(s.Tag), &ast.BlockStmt{List: cc.Body}, e.Pos()})
 						}
 					}
-					if walk(cc.Body, u, collect) {
-						under = true
+					// break inside a switch leaves the switch only
+					if walk(cc.Body, u, collect) == 2 {
+						note(2)
 					}
 				}
 			case *ast.LabeledStmt:
-				if walk([]ast.Stmt{s.Stmt}, under, collect) {
-					under = true
-				}
+				note(walk([]ast.Stmt{s.Stmt}, under, collect))
 			}
 		}
-		return under
+		return jumped
 	}
 	for round := 0; changed && round < 12; round++ {
 		changed = false
